@@ -29,10 +29,11 @@ type taskSpec struct {
 	Host     string            `json:"host"`
 	Critical bool              `json:"critical"`
 	Mode     string            `json:"mode"`
-	Start    string            `json:"start"`               // ok | late | fails | never
+	Start    string            `json:"start"`              // ok | late | fails | never
 	OnEvent  map[string]string `json:"on_event,omitempty"` // transition event -> outcome name
 	Hook     string            `json:"hook_trigger,omitempty"`
 	HookExit int               `json:"hook_exit,omitempty"`
+	HookEnd  string            `json:"hook_end,omitempty"` // "", exit1, signal, involuntary, never
 }
 
 type wfSpec struct {
@@ -43,21 +44,21 @@ type wfSpec struct {
 }
 
 type request struct {
-	Client  int    `json:"client"`
-	Env     int    `json:"env"`
-	Op      string `json:"op"` // NEW, DEPLOY.., DESTROY, CLEANUP
-	Force   bool   `json:"force,omitempty"`
-	Keep    bool   `json:"keep_tasks,omitempty"`
-	AllowRunning bool `json:"allow_in_running,omitempty"`
+	Client       int    `json:"client"`
+	Env          int    `json:"env"`
+	Op           string `json:"op"` // NEW, DEPLOY.., DESTROY, CLEANUP
+	Force        bool   `json:"force,omitempty"`
+	Keep         bool   `json:"keep_tasks,omitempty"`
+	AllowRunning bool   `json:"allow_in_running,omitempty"`
 	// results
-	Err     string `json:"err,omitempty"`
-	State   string `json:"state,omitempty"`
-	RunNo   uint32 `json:"run_number,omitempty"`
-	invoke  int
-	ret     int
-	invAt   time.Duration
-	retAt   time.Duration
-	done    bool
+	Err    string `json:"err,omitempty"`
+	State  string `json:"state,omitempty"`
+	RunNo  uint32 `json:"run_number,omitempty"`
+	invoke int
+	ret    int
+	invAt  time.Duration
+	retAt  time.Duration
+	done   bool
 }
 
 type scenario struct {
@@ -68,16 +69,16 @@ type scenario struct {
 }
 
 type evRec struct {
-	seq   int
-	at    time.Duration
-	env   string
-	state string
-	trans string
-	step  string
-	msg   string
-	errS  string
-	run   uint32
-	runEv bool
+	seq    int
+	at     time.Duration
+	env    string
+	state  string
+	trans  string
+	step   string
+	msg    string
+	errS   string
+	run    uint32
+	runEv  bool
 	status string
 }
 
@@ -214,6 +215,26 @@ func body(c *hk.Ctx) {
 		}
 		wf.Tasks = append(wf.Tasks, t)
 	}
+	// hook tasks: triggered by the core at a moment of START/STOP_ACTIVITY; how their child ends
+	// decides (for critical ones) whether the transition may succeed
+	if nTasks > 0 {
+		moments := []string{"before_START_ACTIVITY", "after_START_ACTIVITY", "enter_RUNNING", "leave_RUNNING", "before_STOP_ACTIVITY", "after_STOP_ACTIVITY"}
+		for i, nh := 0, []int{0, 0, 1, 2}[c.W(4, "hook-tasks")]; i < nh; i++ {
+			t := &taskSpec{Role: fmt.Sprintf("hk%d", i), Class: fmt.Sprintf("hkcls%d", i), Host: sc.Agents[c.W(nAgents, "task-host")],
+				Critical: c.W(2, "hook-critical") == 1, Mode: "hook", Start: "ok", OnEvent: map[string]string{}, Hook: moments[c.W(len(moments), "hook-moment")]}
+			switch c.F(8, "hook-end") {
+			case 4:
+				t.HookEnd, t.HookExit = "exit1", 1
+			case 5:
+				t.HookEnd, t.HookExit = "signal", -1 // ended by a signal on its own: exit code -1, voluntary
+			case 6:
+				t.HookEnd, t.HookExit = "involuntary", -1
+			case 7:
+				t.HookEnd = "never" // runs into its 20 s timeout
+			}
+			wf.Tasks = append(wf.Tasks, t)
+		}
+	}
 	seen := map[string]bool{}
 	for _, t := range wf.Tasks {
 		if !seen[t.Host] {
@@ -244,7 +265,8 @@ func body(c *hk.Ctx) {
 		if sp == nil {
 			return nil
 		}
-		ts := &simmesos.TaskScript{OnCommand: map[string]simmesos.Outcome{}, HookExit: sp.HookExit}
+		ts := &simmesos.TaskScript{OnCommand: map[string]simmesos.Outcome{}, HookExit: sp.HookExit,
+			HookInvoluntary: sp.HookEnd == "involuntary", HookNeverTerminates: sp.HookEnd == "never"}
 		switch sp.Start {
 		case "late":
 			ts.StartDelay = time.Duration(wf.DeployTimeout)*time.Second + 20*time.Second
@@ -410,6 +432,11 @@ func checkC02(c *hk.Ctx, s *sys, sc *scenario, wf *wfSpec, prop string) {
 			ev := evName[r.Op]
 			ok := true
 			n := 0
+			hookMoments := map[string][]string{
+				"START_ACTIVITY": {"before_START_ACTIVITY", "after_START_ACTIVITY", "enter_RUNNING"},
+				"STOP_ACTIVITY":  {"before_STOP_ACTIVITY", "after_STOP_ACTIVITY", "leave_RUNNING"},
+			}
+			hookFailed := ""
 			for _, t := range wf.Tasks {
 				if !ts[t.Role].active {
 					continue
@@ -418,8 +445,19 @@ func checkC02(c *hk.Ctx, s *sys, sc *scenario, wf *wfSpec, prop string) {
 				if t.Critical && t.OnEvent[ev] != "" {
 					ok = false
 				}
+				if t.Hook != "" && t.Critical && t.HookEnd != "" {
+					for _, m := range hookMoments[r.Op] {
+						if m == t.Hook {
+							ok = false
+							hookFailed = t.HookEnd
+						}
+					}
+				}
 			}
-			c.State(fmt.Sprintf("%s ok=%v targets=%d", r.Op, ok, n))
+			if hookFailed != "" {
+				c.Count("hook_task.critical_failure." + hookFailed)
+			}
+			c.State(fmt.Sprintf("%s ok=%v targets=%d hook=%s", r.Op, ok, n, hookFailed))
 			gotOK := r.Err == "" && r.State == dest[r.Op]
 			if ok != gotOK {
 				viol("C02", "transition-outcome", fmt.Sprintf("%s:want-ok=%v,err=%v,state=%s,targets=%d", r.Op, ok, r.Err != "", r.State, min(n, 2)), "%s: per-task outcomes say success=%v, the API returned state %s error %q; tasks %s", r.Op, ok, r.State, r.Err, describe(wf))
@@ -448,6 +486,10 @@ func checkC02(c *hk.Ctx, s *sys, sc *scenario, wf *wfSpec, prop string) {
 func describe(wf *wfSpec) string {
 	var p []string
 	for _, t := range wf.Tasks {
+		if t.Hook != "" {
+			p = append(p, fmt.Sprintf("%s(crit=%v,hook@%s,ends=%q)", t.Role, t.Critical, t.Hook, t.HookEnd))
+			continue
+		}
 		p = append(p, fmt.Sprintf("%s(crit=%v,%s,start=%s,%v)", t.Role, t.Critical, t.Mode, t.Start, t.OnEvent))
 	}
 	return strings.Join(p, " ")
